@@ -24,7 +24,7 @@ EXPLANATION = (
 )
 ASSUMPTIONS = ["CPython ast parses /repo's source as the interpreter would",
                "Fragment subclasses and their behaviour-bearing fields are read from hdl/_ir.py and hdl/_mem.py on every run"]
-MIN_INSTANCES = {"R-03a": 3, "R-03b": 4, "R-03c": 12, "R-03d": 12, "R-03e": 3}
+MIN_INSTANCES = {"R-03f": 2, "R-03a": 3, "R-03b": 4, "R-03c": 12, "R-03d": 12, "R-03e": 3}
 
 
 def r03a(model, ctx):
@@ -494,4 +494,46 @@ def r03e(model, ctx):
               f"{XFRM}:{f.lineno}")
 
 
-RULES = [("R-03a", r03a), ("R-03b", r03b), ("R-03c", r03c), ("R-03d", r03d), ("R-03e", r03e)]
+def r03f(model, ctx):
+    """(1) LHSMaskCollector.chunks walks every bit position 0..len(signal)-1 of the mask (ResetInserter resets exactly the
+    chunks it yields); (2) domain propagation never replaces a domain a subfragment defines itself."""
+    R = "R-03f"
+    f = model.func_view(f"{XFRM}::LHSMaskCollector.chunks")
+    whiles = [w for w in ast.walk(f) if isinstance(w, ast.While)]
+    fors = [w for w in ast.walk(f) if isinstance(w, ast.For) and "range(" in unparse(w.iter)]
+    if len(whiles) == 2 and not fors:
+        outer = [w for w in whiles if any(x is not w and isinstance(x, ast.While) for x in ast.walk(w))]
+        need(len(outer) == 1, "LHSMaskCollector.chunks: nested scan loops not recognised")
+        o = outer[0]
+        inner = [x for x in ast.walk(o) if isinstance(x, ast.While) and x is not o][0]
+        ot = unparse(o.test)
+        it = unparse(inner.test)
+        ok = ot == "start < len(signal)" and it.startswith("stop < len(signal) and ") and \
+            any(unparse(x) == "stop = start" for x in ast.walk(o)) and any(unparse(x) == "start = stop" for x in ast.walk(o)) and \
+            any(isinstance(x, ast.AugAssign) and unparse(x) == "start += 1" for x in ast.walk(o)) and \
+            any(isinstance(x, ast.AugAssign) and unparse(x) == "stop += 1" for x in ast.walk(inner))
+        how = f"outer `{ot}`, inner `{it}`"
+    elif len(fors) == 1 and not whiles:
+        # single scan with a sentinel position: range(len(signal) + 1)
+        ok = unparse(fors[0].iter) in ("range(len(signal) + 1)", "range(0, len(signal) + 1)")
+        how = f"scan over {unparse(fors[0].iter)}"
+    else:
+        raise AnalysisError("LHSMaskCollector.chunks: scan idiom not recognised")
+    ctx.check(ok, R, "LHSMaskCollector.chunks:scan", "every bit position of the signal is examined; runs end at len(signal)",
+              f"chunks() must scan positions 0..len(signal)-1 and close a run at len(signal) ({how}): a run that starts at the MSB "
+              f"would otherwise not be yielded and ResetInserter would leave that bit un-reset", f"{XFRM}:{f.lineno}")
+    fp = model.func(f"{IR}::Fragment._propagate_domains_down")
+    adds = [x for x in ast.walk(fp) if isinstance(x, ast.Call) and unparse(x.func) == "subfrag.add_domains"]
+    stores = [x for x in ast.walk(fp) if isinstance(x, (ast.Assign, ast.AugAssign)) and "subfrag.domains" in unparse(x.targets[0] if isinstance(x, ast.Assign) else x.target)]
+    from ..engine.astutil import parent_map, dominating_conditions
+    pm = parent_map(fp)
+    ok = len(adds) == 1 and not stores
+    if ok:
+        conds = {(unparse(t), pol) for t, pol in dominating_conditions(pm, pm.get(adds[0]), fp)}
+        ok = ("domain not in subfrag.domains", True) in conds or ("domain in subfrag.domains", False) in conds
+    ctx.check(ok, R, "Fragment._propagate_domains_down", "a parent's domain is added only where the subfragment has none of that name",
+              "a subfragment that defines a domain itself must keep it: the parent's domain of the same name may only be added "
+              "under `domain not in subfrag.domains` (and never stored over an existing entry)", f"{IR}:{fp.lineno}")
+
+
+RULES = [("R-03f", r03f), ("R-03a", r03a), ("R-03b", r03b), ("R-03c", r03c), ("R-03d", r03d), ("R-03e", r03e)]
